@@ -14,7 +14,7 @@ claimed = {
          "spans computed by the lexer's column rule as stated in the harness; Unicode models"),
  "C12": ("§4 C12", "DebugInfo (ip -> span map): after any <= 4 pushes with increasing ips, lookup equals a linear scan of the uncompressed push log for every query ip; lexer step harnesses show every token span ordered and on a line of the text. Which span the compiler pushes for an instruction, trace order and rendering are outside the claim.",
          "ips strictly increasing (push_op pushes bytes.len() before >= 2 bytes)"),
- "C13": ("§4 C13", "Cursor state machines of the bidirectional sources (KRange::pop_front/pop_back as one inductive step from an arbitrary bounded range plus two-pop sequences; ByteIterator and, thorough, TupleIterator against a two-ended-queue oracle over every interleaving of 4 pops; KString grapheme pops) and the adaptors Take, Zip, Chain, Reversed, Enumerate (Step, Skip: thorough) driven through the real KIterator over byte sources with symbolic elements, including their laziness (observed through a shared iterator clone), plus Peekable's iterator protocol from concrete cache shapes. Adaptors with VM callbacks, all consumers, generators and @next objects need a KotoVm and are outside the claim.",
+ "C13": ("§4 C13", "Cursor state machines of the bidirectional sources (KRange::pop_front/pop_back as one inductive step from an arbitrary bounded range plus two-pop sequences; ByteIterator against a two-ended-queue oracle over every interleaving of 4 pops; KString grapheme pops) and the adaptors Take, Zip, Chain, Reversed, Enumerate driven through the real KIterator over byte sources with symbolic elements, including their laziness (observed through a shared iterator clone), plus Peekable's iterator protocol from concrete cache shapes. Adaptors with VM callbacks, all consumers, generators and @next objects need a KotoVm and are outside the claim.",
          "outputs are Numbers, created and forgotten (KValue drop glue of unknown variants is outside the encodable fragment); every iterator in a harness is built from concrete types; Peekable's cache slots are set directly"),
  "C14": ("§4 C14", "Equality / hash / order laws of numbers (all 2x2^64 x 2x2^64 pairs, triples for transitivity), of ranges as keys and of KString across its three representations: a == b implies equal hasher feeds, symmetry, reflexivity off NaN, != is the negation, trichotomy, antisymmetry, transitivity, exact mixed int/float comparison up to 2^53 (beyond: known finding F12). Aliasing, copy depth, map insertion order, container equality and sorting are KValue/VM code and outside the claim.",
          "recording Hasher stands for every Hasher"),
